@@ -7,7 +7,7 @@ RULE = (
     "Hypothesis draws a requestor user script (associate, echo/store/find/sleep ops, then release/abort/idle), acceptor handler behaviours "
     "(return, delay, raise, abort), an acceptor-side user action from another thread at a generated time (release() or abort() of the active "
     "association - release collision, abort during release), an optional abort from a second requestor-side thread, small virtual timeouts and a "
-    "schedule (fifo/random/PCT + preemptions + clock nudges). Both ends are real pynetdicom AEs under the E4 cooperative scheduler. Oracle at "
+    "schedule (fifo/random/PCT + preemptions + clock nudges). Both ends are real pynetdicom AEs under the E4 cooperative scheduler. A second family ('pair-at-notification') takes an otherwise undisturbed association and calls abort() from another thread exactly while one chosen notification (released / aborted / established / accepted / first DIMSE or ACSE message) of one side is being delivered. Oracle at "
     "quiescence: each side has exactly one of released/aborted/rejected; the outcomes are compatible (released<->released; an abort on one side "
     "<-> aborted on the other; rejected<->rejected); each side fired EVT_RELEASED+EVT_ABORTED+EVT_REJECTED exactly once; is_established is false; "
     "every thread has finished and both sockets are closed; total virtual time <= sum of the timeouts used + 12 s of scripted delays. "
@@ -61,11 +61,12 @@ def check_pair(ctx, sc):
     sides = {"requestor": (req, req["_rec"], 0), "acceptor": (a, out["_rec_acc"], 0)}
     for name, (s, rec, key) in sides.items():
         o = s["outcome"]
-        if len(o) > 1:
-            ctx.fail("multiple-outcomes", f"{name}:{'+'.join(o)}" + (":dul-died" if died else ""), f"{name} reports {o}; scenario {_brief(sc)}")
-            return
         n_term = [e[2] for e in rec.events if e[1] == key and e[2] in TERMINAL]
         sites = [str(e[3]) for e in rec.events if e[1] == key and e[2] in TERMINAL]  # which pynetdicom function fired each one
+        if len(o) > 1:
+            how = "+".join(sorted({f"{n.replace('EVT_', '')}@{st_}" for n, st_ in zip(n_term, sites)})) or "no-notification"
+            ctx.fail("multiple-outcomes", f"{name}:{'+'.join(o)}:{how}" + (":dul-died" if died else ""), f"{name} reports {o} (terminal notifications {list(zip(n_term, sites))}); scenario {_brief(sc)}")
+            return
         if len(n_term) > 1:
             acse = [e[3] for e in rec.events if e[1] == key and e[2] == "EVT_ACSE_SENT"]
             when = "during-own-release" if "A_RELEASE" in acse else "no-own-release"
@@ -122,7 +123,7 @@ def _brief(sc):
     return {"acc": {k: v for k, v in sc["acceptor"].items() if k != "kind"}, "req": sc["requestors"][0], "timeouts": sc["timeouts"], "schedule": sc["schedule"]}
 
 
-CHECKS = {"pair": check_pair}
+CHECKS = {"pair": check_pair, "pair-at-notification": check_pair}  # the alias gives the second family its own Hypothesis seed
 
 
 def run(ctx):
@@ -143,3 +144,23 @@ def run(ctx):
         return sc
 
     ctx.hyp("pair", with_release(), 150 if ctx.quick else 1500)
+
+    # races at a terminal moment, one at a time on an otherwise undisturbed association: abort() from another thread exactly while
+    # a given notification of that side is being delivered (established / accepted / released / aborted / first DIMSE), the association
+    # ended by either side with release or abort
+    @st.composite
+    def at_notification(draw):
+        sc = dict(draw(pair))
+        quiet = {"echo": {"delay": 0, "do": None}, "store": {"delay": 0, "do": None}, "find": {"n": 1, "delay": 0, "do": None, "do_at": 0}}
+        side = draw(st.sampled_from(["acceptor", "requestor"]))
+        ev = draw(st.sampled_from(["EVT_RELEASED", "EVT_RELEASED", "EVT_ABORTED", "EVT_ESTABLISHED", "EVT_ACCEPTED", "EVT_DIMSE_RECV", "EVT_ACSE_RECV"]))
+        ops = draw(st.lists(st.sampled_from([["echo"], ["find"], ["store", 10]]), max_size=2))
+        end = draw(st.sampled_from([["release"], ["release"], ["abort"], ["idle"]]))
+        acc = {"kind": "pynetdicom", "handlers": quiet, "shutdown_at": None, "abort_on": ev if side == "acceptor" else None}
+        if end == ["idle"]:
+            acc["release_at"] = draw(st.sampled_from([0.5, 1.0]))
+        sc["acceptor"] = acc
+        sc["requestors"] = [{"kind": "pynetdicom", "script": [["associate"]] + ops + [end], "abort_at": None, "abort_on": ev if side == "requestor" else None}]
+        return sc
+
+    ctx.hyp("pair-at-notification", at_notification(), 60 if ctx.quick else 600)
